@@ -250,7 +250,7 @@ def run_case(c):
     violations = []
     distinct = set()
     samples = []
-    progs = list(pygen.TABLE) + pygen.def_variants()
+    progs = list(pygen.TABLE) + pygen.def_variants() + pygen.compound_variants()
     files = pygen.harvested_files(repo_root())
     harvested = []
     for f in files:
